@@ -8,6 +8,7 @@ import (
 
 	"github.com/ava-labs/avalanchego/utils/logging"
 
+	"github.com/ava-labs/hypersdk/internal/verifhook"
 	"github.com/ava-labs/hypersdk/internal/workers"
 )
 
@@ -62,8 +63,10 @@ func (a *AuthBatch) Add(digest []byte, auth Auth) {
 
 func (a *AuthBatch) Done(f func()) {
 	for _, bw := range a.bvs {
+		verifhook.Yield("authbatch.Done.close")
 		close(bw.items)
 		<-bw.done
+		verifhook.Yield("authbatch.Done.drained")
 
 		for _, item := range bw.bv.Done() {
 			a.job.Go(item)
@@ -91,6 +94,7 @@ func (b *authBatchWorker) start() {
 	defer close(b.done)
 
 	for object := range b.items {
+		verifhook.YieldK("authbatch.worker.item", uint64(object.auth.GetTypeID()))
 		if j := b.bv.Add(object.digest, object.auth); j != nil {
 			// May finish parts of batch early, let's start computing them as soon as possible
 			b.job.Go(j)
